@@ -1101,6 +1101,9 @@ func RunSliceExpr(ctx *Task, expr *ast.SliceExpr) (any, ast.DType, *errchain.PlE
 			}
 			for i := startInt; i < endInt && i < length; i += stepInt {
 				result += string(str[i])
+				if stepInt >= length { // the next index is out of range; i += stepInt could overflow
+					break
+				}
 			}
 			return result, ast.String, nil
 		} else {
@@ -1110,6 +1113,9 @@ func RunSliceExpr(ctx *Task, expr *ast.SliceExpr) (any, ast.DType, *errchain.PlE
 			}
 			for i := startInt; i > endInt && i >= 0; i += stepInt {
 				result += string(str[i])
+				if stepInt <= -length { // the next index is out of range; i += stepInt could overflow
+					break
+				}
 			}
 			return result, ast.String, nil
 		}
@@ -1125,6 +1131,9 @@ func RunSliceExpr(ctx *Task, expr *ast.SliceExpr) (any, ast.DType, *errchain.PlE
 			result := make([]any, 0)
 			for i := startInt; i < endInt; i += stepInt {
 				result = append(result, list[i])
+				if stepInt >= length { // the next index is out of range; i += stepInt could overflow
+					break
+				}
 			}
 			return result, ast.List, nil
 		} else {
@@ -1137,6 +1146,9 @@ func RunSliceExpr(ctx *Task, expr *ast.SliceExpr) (any, ast.DType, *errchain.PlE
 			result := make([]any, 0)
 			for i := startInt; i > endInt; i += stepInt {
 				result = append(result, list[i])
+				if stepInt <= -length { // the next index is out of range; i += stepInt could overflow
+					break
+				}
 			}
 			return result, ast.List, nil
 		}
